@@ -6,6 +6,59 @@ use fibre::spsc;
 
 const LIFE: u32 = A_LIFE | O_NOP;
 
+/// C04: a handle on which close() returned Ok stays closed across to_async()/to_sync(): every operation
+/// of the converted handle fails, a second close reports CloseError, and the other side never sees a value
+/// after Disconnected / keeps getting Closed.
+#[kani::proof]
+#[kani::unwind(4)]
+fn c04_q_spsc_closed_sender_conversion() {
+  let to_async: bool = kani::any();
+  if to_async {
+    let (tx, rx) = spsc::bounded_sync::<u8>(2);
+    assert!(tx.close().is_ok(), "C04: first close() failed");
+    let mut a = tx.to_async();
+    assert!(matches!(a.try_send(5), Err(fibre::error::TrySendError::Closed(5))), "C04: closed sender operates again after to_async()");
+    assert!(a.close().is_err(), "C04: second close() after conversion did not report CloseError");
+    assert!(rx.try_recv() == Err(fibre::error::TryRecvError::Disconnected), "C04: receiver obtained a value from a closed sender");
+    drop(a);
+    assert!(rx.try_recv() == Err(fibre::error::TryRecvError::Disconnected), "C04: value after Disconnected");
+  } else {
+    let (tx, mut rx) = spsc::bounded_async::<u8>(2);
+    assert!(tx.close().is_ok(), "C04: first close() failed");
+    let s = tx.to_sync();
+    assert!(matches!(s.try_send(5), Err(fibre::error::TrySendError::Closed(5))), "C04: closed sender operates again after to_sync()");
+    assert!(s.send(6).is_err(), "C04: closed sender operates again after to_sync()");
+    assert!(s.close().is_err(), "C04: second close() after conversion did not report CloseError");
+    assert!(rx.try_recv() == Err(fibre::error::TryRecvError::Disconnected), "C04: receiver obtained a value from a closed sender");
+  }
+  kani::cover!(to_async, "sync to async");
+  kani::cover!(!to_async, "async to sync");
+}
+#[kani::proof]
+#[kani::unwind(4)]
+fn c04_q_spsc_closed_receiver_conversion() {
+  let to_async: bool = kani::any();
+  if to_async {
+    let (tx, rx) = spsc::bounded_sync::<u8>(2);
+    assert!(tx.try_send(1).is_ok(), "C03: try_send failed");
+    assert!(rx.close().is_ok(), "C04: first close() failed");
+    let mut a = rx.to_async();
+    assert!(a.try_recv() == Err(fibre::error::TryRecvError::Disconnected), "C04: closed receiver operates again after to_async()");
+    assert!(a.close().is_err(), "C04: second close() after conversion did not report CloseError");
+    assert!(matches!(tx.try_send(2), Err(fibre::error::TrySendError::Closed(2))), "C04: send succeeded after the receiver closed");
+  } else {
+    let (mut tx, rx) = spsc::bounded_async::<u8>(2);
+    assert!(tx.try_send(1).is_ok(), "C03: try_send failed");
+    assert!(rx.close().is_ok(), "C04: first close() failed");
+    let s = rx.to_sync();
+    assert!(s.try_recv() == Err(fibre::error::TryRecvError::Disconnected), "C04: closed receiver operates again after to_sync()");
+    assert!(s.close().is_err(), "C04: second close() after conversion did not report CloseError");
+    assert!(matches!(tx.try_send(2), Err(fibre::error::TrySendError::Closed(2))), "C04: send succeeded after the receiver closed");
+  }
+  kani::cover!(to_async, "sync to async");
+  kani::cover!(!to_async, "async to sync");
+}
+
 /// vacuity twin: must FAIL
 #[kani::proof]
 #[kani::unwind(3)]
